@@ -145,6 +145,17 @@ CLAIMED = {
         technique="symbolic step harness + structural clone contracts + native execution (all bounded)",
         note="trusted: pdtv + z3; bounded in table width / node instances / pipelines; Polars and SQLite execution for X3/X5",
     ),
+    "C02": dict(
+        category="other",
+        text="Inductive-step verification conditions on abstract tables (bounded width, symbolic names) with a frame model that records, per physical column, the data token it holds and the "
+        "history of row operations: for select, drop, rename, mutate (one keyword; two keywords where the second references a column the first overwrites), filter (two predicates), arrange "
+        "(flags), slice_head, group_by, ungroup, alias, the real verb function builds the documented node (V1), the real polars.compile_ast applies exactly the documented row operation and "
+        "computes new columns from PRE-state data while all other column data is untouched (V2), and SqlImpl.compile_ast appends exactly the predicates to WHERE, prepends the sort keys, sets "
+        "LIMIT/OFFSET and adds labelled expressions over pre-state columns (V3). Expression values are C03-C05, foldability is C08.",
+        design_ref="DESIGN.md §5.2",
+        technique="symbolic execution of the real verb/compile functions on bounded-width tables with symbolic names + z3 (inductive step, data tokens + row-operation history)",
+        note="trusted: pdtv + z3; LazyFrame axioms (filter/sort/slice/with_columns) and the SQL clause model; bound: table width <= 3",
+    ),
 }
 
 NOT_YET = "check not built yet (engine under construction); will be claimed as soon as its obligations discharge"
